@@ -220,3 +220,70 @@ Definition established_partial (q : mon) (r : result) : Prop :=
 (* a refused selection ends the run with the error the monitor predicted *)
 Definition refusal_reported (q : mon) (r : result) : Prop :=
   forall e, q_refused q = Some e -> r_class r = RErr e.
+
+(* ------------------------------------------------------------------ witnesses and examples (definitions only) *)
+
+Definition xa : bytes := str "urn:x:a".
+Definition xb : bytes := str "urn:x:b".
+Definition fa : feature := mkF xa (str "a") 0 0 true KAbstract true false.
+Definition fb : feature := mkF xb (str "b") 0 0 true KAbstract true false.
+Definition cfg_ab : config := mkCfg [fa; fb] false false true (str "example.net") None false.
+Definition hdr : pitem := mkItem false (PHeader HGood).
+
+(* W1: two required features are advertised; the one taken first returns Ready
+   in its own mask (the resource-binding pattern): established, the other pending *)
+Definition w1_run : result :=
+  run cfg_ab 0 [hdr; mkItem false (PFeatures [FC xa (str "a") true false; FC xb (str "b") true false])] []
+      [mkO st_Ready false false] [xa].
+
+(* W2: a voluntary feature returns Ready together with a new connection:
+   established although the restart it asked for never happened *)
+Definition w2_run : result :=
+  run cfg_ab 0 [hdr; mkItem false (PFeatures [FC xa (str "a") false false])] []
+      [mkO st_Ready true false] [xa].
+
+Definition mon_of (c : config) (bits : N) (r : result) : mon := final (c_feats c) (c_ws c) (mon0 bits) (trace r).
+
+(* the built-in trio with the masks the sources declare, as abstract features,
+   and a complete client negotiation: STARTTLS (restart), SASL (restart), bind *)
+Definition f_tls : feature := mkF ft_starttls_space ft_starttls_local ft_starttls_nec ft_starttls_proh true KAbstract true false.
+Definition f_sasl : feature := mkF ft_sasl_space ft_sasl_local ft_sasl_nec ft_sasl_proh true KAbstract true false.
+Definition f_bind : feature := mkF ft_bind_space ft_bind_local ft_bind_nec ft_bind_proh true KAbstract true false.
+Definition cfg_trio : config := mkCfg [f_tls; f_sasl; f_bind] false false true (str "example.net") None false.
+Definition adv (f : feature) (req : bool) : fchild := FC (f_space f) (f_local f) req false.
+Definition trio_client : result :=
+  run cfg_trio 0
+      [hdr; mkItem false (PFeatures [adv f_tls true; adv f_sasl true; adv f_bind true]);
+       hdr; mkItem false (PFeatures [adv f_bind true; adv f_sasl true]);
+       hdr; mkItem false (PFeatures [adv f_bind true])] []
+      [mkO st_Secure true false; mkO st_Authn true false; mkO st_Ready false false]
+      [ft_starttls_space; ft_sasl_space; ft_bind_space].
+(* the same configuration on the receiving side, the peer selecting in order *)
+Definition sel (f : feature) : pitem := mkItem false (PElem (f_space f) (f_local f)).
+Definition trio_server : result :=
+  run cfg_trio st_Received
+      [hdr; sel f_tls; hdr; sel f_sasl; hdr; mkItem false (PIq (f_space f_bind) (f_local f_bind))] []
+      [mkO st_Secure true false; mkO st_Authn true false; mkO st_Ready false false] [].
+(* the receiver refuses: SASL selected before STARTTLS (not advertised yet) *)
+Definition trio_server_early : result :=
+  run cfg_trio st_Received [hdr; sel f_sasl] [] [] [].
+(* the forced STARTTLS attempt: first list empty *)
+Definition trio_forced : result :=
+  run cfg_trio 0 [hdr; mkItem false (PFeatures []); hdr; mkItem false (PFeatures [])] []
+      [mkO st_Secure true false] [ft_starttls_space].
+(* two voluntary features and a required one: both map orders of the voluntary
+   ones are legal, taking the required one first is not *)
+Definition fv1 : feature := mkF xa (str "a") 0 0 true KAbstract false false.
+Definition fv2 : feature := mkF xb (str "b") 0 0 true KAbstract false false.
+Definition xc : bytes := str "urn:x:c".
+Definition fr3 : feature := mkF xc (str "c") 0 0 true KAbstract true false.
+Definition cfg_vvr : config := mkCfg [fv1; fv2; fr3] false false true (str "example.net") None false.
+Definition vvr (choices : list bytes) : result :=
+  run cfg_vvr 0 [hdr; mkItem false (PFeatures [adv fr3 true; adv fv1 false; adv fv2 false]); mkItem false (PFeatures [])] []
+      [mkO 0 false false; mkO 0 false false; mkO 0 false false] choices.
+Fixpoint negs (tr : list event) : list (name * N) :=
+  match tr with
+  | [] => []
+  | ENeg f st _ :: r => (fname f, st) :: negs r
+  | _ :: r => negs r
+  end.
